@@ -1114,3 +1114,65 @@ class FitIndependent(Contract):
         for i in sorted(owned):
             cx.oblige(f"lemma.second_fit_unrestricted.{names[i]}", second["fixed"][i] is None, "post", "the unrestricted instance is fitted without any constraint left over from another instance")
         cx.oblige("lemma.second_fit_data", second["data"] is out.value[2], "post")
+
+
+# =============================================================================== Distribution.fit (dispatch)
+_DISPATCH_CASES = [dict(method=m, weights=w, fixed=fx) for m in ("mle", "MLE", "lsq", "wlsq", "WLSQ", "no_such_method") for w in ("none", "given") for fx in (False, True)]
+
+
+@contract(D + "Distribution.fit", ["C12", "C13", "C18", "C11", "C09"], _DISPATCH_CASES, name="dist.fit.dispatch")
+class FitDispatch(Contract):
+    """fit(data, method, weights): 'mle' (any case) -> _fit_mle(data), also when weights are given (they are documented
+    as ignored there); 'lsq' / 'wlsq' -> _fit_lsq(data, weights) with the caller's weights; anything else ->
+    ValueError, also for a distribution whose parameters are all fixed; nothing else is called"""
+
+    def case_label(self, case):
+        return f"method={case['method']},weights={case['weights']},all_fixed={case['fixed']}"
+
+    def inputs(self, itp, case):
+        cx = itp.cx
+        me = self
+        me.calls = []
+        n = cx.sym("n", "int")
+        cx.assume(T.ge(n, 2))
+        self.data = sym_array(cx, "data", (n,))
+        self.weights = sym_array(cx, "weights", (n,)) if case["weights"] == "given" else None
+
+        def rec(name):
+            def f(itp_, args, kwargs):
+                me.calls.append((name, list(args[1:]), dict(kwargs)))
+                return None
+            return f
+        fam = "WeibullDistribution"
+        itp.summaries[D + fam + "._fit_mle"] = rec("_fit_mle")
+        itp.summaries[D + fam + "._fit_lsq"] = rec("_fit_lsq")
+        fields = {p: real(cx, f"self.{p}") for p in fam_params(fam)}
+        for p in fam_params(fam):
+            fields["f_" + p] = real(cx, f"self.f_{p}") if case["fixed"] else None
+        self.obj = dist_obj(cx, fam, fields)
+        kw = {"method": case["method"]}
+        if self.weights is not None:
+            kw["weights"] = self.weights
+        return [self.obj, self.data], kw
+
+    def post(self, itp, case, inp, out):
+        cx = itp.cx
+        m = case["method"].lower()
+        if m not in ("mle", "lsq", "wlsq"):
+            cx.oblige("raises.ValueError.unknown_method", out.outcome == "raise" and out.exc == "ValueError", "raises", "an unknown fit method is rejected (whatever is fixed)")
+            cx.oblige("post.nothing_fitted", not self.calls, "post")
+            return
+        if out.outcome != "return":
+            cx.oblige("post.returns", False, "post", f"raised {out.exc}: {out.msg}")
+            return
+        want = "_fit_mle" if m == "mle" else "_fit_lsq"
+        ok = len(self.calls) == 1 and self.calls[0][0] == want
+        cx.oblige("post.dispatch", ok, "post", f"method '{case['method']}' runs {want} once and nothing else (got {[c[0] for c in self.calls]})")
+        if not ok:
+            return
+        a, k = self.calls[0][1], self.calls[0][2]
+        cx.oblige("post.data_forwarded", len(a) >= 1 and same_data(cx, a[0], self.data), "post")
+        if want == "_fit_lsq":
+            got = a[1] if len(a) > 1 else k.get("weights", "ABSENT")
+            cx.oblige("post.weights_forwarded", (got is None) if self.weights is None else same_data(cx, got, self.weights), "post", "the caller's weights reach the least-squares fit")
+        cx.oblige("frame.data", self.data.buf.writes == 0, "frame")
